@@ -366,6 +366,9 @@ class Interp:
             if imp[0] == 'module':
                 return self.import_module(imp[1])
             _, m, n = imp
+            if m in self.libs:
+                # a contract-supplied namespace (e.g. the compiled kernels under their contracts)
+                return self.libs[m].get(n)
             if m.split('.')[0] == 'pylife':
                 try:
                     target = extract.load_module(m)
